@@ -13,7 +13,7 @@ import AioftpModel.Py.Repr
 import AioftpModel.Generated.Server
 import AioftpModel.Generated.Logs
 
-namespace Model
+namespace Model.Logs
 open Py
 
 /-- `"*" * n` -/
@@ -267,4 +267,4 @@ def loginEnv (users : List UserRec) : Env Unit := ⟨managerUsers users, loginOt
 
 def initState : LState Unit := ⟨none, false, ()⟩
 
-end Model
+end Model.Logs
